@@ -171,3 +171,8 @@ def hst_class_ok(ht, hst):
     if ht.value == 6:
         return name == "LocationServiceHST"
     return name == "HeaderSubType"
+
+
+def is_shb(ptt):
+    return ptt.header_type.value == 5 and type(ptt.header_subtype).__name__ == "TopoBroadcastHST" \
+        and ptt.header_subtype.value == 0
